@@ -39,6 +39,7 @@ pub struct GenCase {
 pub const LINE_CLASSES: &[(&str, &[&[u8]])] = &[
     ("plain", &[b"plain output", b"another line", b"x", b"foo bar baz"]),
     ("modifier_lookalike", &[b"foo (glob)", b"bar (?)", b"x ()", b"y (esc+)", b"z (no-eol)", b"w (regex*)", b"(glob)", b" (equal)", b"q (*)", b"C:\\temp\\x (glob)", b"a\\tb (?)"]),
+    ("marker_inside_line", &[b"job 17 (escaped) quotes", b"a (esc) b", b"col\tx (escaped) col (escaped)", b"x (glob) y", b"(no-eol) first", b"a (escaped)b", b"two  (escaped)  blanks"]),
     ("unicode_blank_lookalike", &[b"foo\xe3\x80\x80(glob)", b"bar\xc2\xa0(?)", b"baz\xe2\x80\x83(re)"]),
     ("exit_code_lookalike", &[b"[1]", b"[0]", b"[255]", b"[12345678901]"]),
     ("command_lookalike", &[b"$ x", b"> x", b"$ ", b"> ", b"  $ indented", b"# hash", b"$ cd C:\\temp\\bin", b"> \\\\server\\share", b"[1]"]),
@@ -77,7 +78,7 @@ pub fn classes_of(lines: &[Vec<u8>]) -> Vec<&'static str> {
     out
 }
 
-const PRIOR: &[&str] = &["plain output", "x", "* (glob)", "?? (glob*)", "x (?)", "", "another line (+)", ".* (regex*)", "foo bar baz (*)"];
+const PRIOR: &[&str] = &["plain output", "x", "* (glob)", "C:\\* (glob)", "a\\?b (glob?)", "?? (glob*)", "x (?)", "", "another line (+)", ".* (regex*)", "foo bar baz (*)"];
 const CMD: &[&str] = &["the command", "cat file", "printf 'a\\n' | sort", "echo $VAR"];
 const CMD_CONT: &[&str] = &["--flag", "| tail", "second line"];
 
